@@ -32,6 +32,27 @@ struct C19 : Driver {
   Case gen(uint64_t seed, int tier) const override {
     Rng rng(seed);
     Case c; c.prop = "C19";
+    if (rng.below(5) == 0) {
+      // several FILE operands in one -cdf invocation: copied and decompressed operands in any order
+      c.p["multi"] = 1; c.p["header"] = 0;
+      int nop = 2 + (int)rng.below(3);
+      RunCfg r;
+      r.argv = {"-n", std::to_string(random_workers(rng)), "-cdf"};
+      r.copy_granul = rng.below(2) ? 0 : (16u << rng.below(8));
+      for (int i = 0; i < nop; i++) {
+        FileSpec f; f.name = std::string(1, (char)('a' + i)) + (rng.below(2) ? ".bz2" : ".txt");
+        Bytes plain = small_plain(rng, rng.below(3) ? 3000 : 150000);
+        if (rng.below(2)) f.data = bz::libbz2_encode(plain, 1 + (int)rng.below(9));
+        else { f.data = plain; if (f.data.size() >= 4 && f.data[0] == 'B' && f.data[1] == 'Z' && f.data[2] == 'h') f.data[0] = 'C'; }
+        c.files.push_back(f);
+        r.argv.push_back(f.name);
+      }
+      r.sched = random_sched(rng);
+      r.file_frag = random_frag(rng);
+      c.data_desc = std::to_string(nop) + " FILE operands, mixed bzip2 / non-bzip2";
+      c.runs.push_back(r);
+      return c;
+    }
     size_t G = rng.below(3) == 0 ? 0 : (4u << rng.below(11));
     size_t g = G ? G : 65536;
     size_t n;
@@ -76,6 +97,23 @@ struct C19 : Driver {
   }
   Verdict eval(const Case &c, Ctx &ctx) const override {
     if (c.runs.empty()) return Verdict();
+    if (c.p.count("multi") && c.p.at("multi")) {
+      Bytes expect;
+      for (auto &f : c.files) {
+        bool hdr = f.data.size() >= 4 && f.data[0] == 'B' && f.data[1] == 'Z' && f.data[2] == 'h' && f.data[3] >= '1' && f.data[3] <= '9';
+        if (hdr) { bz::DecResult d = bz::refdec(f.data); if (d.verdict != bz::V_VALID) return Verdict(); expect += d.out; } else expect += f.data;
+      }
+      sim::Result a = exec(c.runs[0], Bytes(), c.files, ctx);
+      if (Verdict v = global_monitors(a, "-cdf with several operands"); !v.ok()) return v;
+      if (!a.exited(0)) return Verdict::fail("copy-status", "-cdf on several operands ended with " + a.describe() + "; " + c.runs[0].brief());
+      if (a.out != expect) {
+        size_t d = 0; while (d < a.out.size() && d < expect.size() && a.out[d] == expect[d]) d++;
+        return Verdict::fail("copy-mismatch", "-cdf on " + std::to_string(c.files.size()) + " operands wrote " + std::to_string(a.out.size()) + " bytes, expected " + std::to_string(expect.size()) + " (copied/decompressed operands concatenated), first difference at " + std::to_string(d) + "; " + c.runs[0].brief());
+      }
+      for (auto &f : c.files) if (!a.world.exists(f.name)) return Verdict::fail("input-removed", "-c given but " + f.name + " was removed");
+      if (ctx.st) { uint64_t k = 7; for (auto &f : c.files) k = k * 3 + (f.data.size() >= 3 && f.data[0] == 'B' && f.data[1] == 'Z'); ctx.st->distinct("nontrivial", sim::fnv(sim::fnv(k, c.files.size()), a.ihash)); ctx.st->inc("kind.several-operands"); }
+      return Verdict();
+    }
     RunCfg r = c.runs[0];
     size_t g = r.copy_granul ? r.copy_granul : 65536;
     r.step_budget = budget_for(c.data.size(), g, c.data.size(), g, 64);
@@ -567,7 +605,7 @@ struct C18 : Driver {
     c.p["corrupt_at"] = corrupt_at;
     uint64_t kinds = 0;
     for (int i = 0; i < nop; i++) {
-      int kind = (int)rng.below(9);   // 0 compressible 1 incompressible 2 empty 3 multi-block 4 suffix-skip 5 missing 6 hardlink 7.. compressible
+      int kind = (int)rng.below(10);   // 0 compressible 1 incompressible 2 empty 3 multi-block 4 suffix-skip 5 missing 6 hardlink 7 output-exists 8.. compressible
       if (i == corrupt_at) kind = 20;
       kinds = kinds * 23 + kind;
       Bytes plain;
@@ -584,6 +622,7 @@ struct C18 : Driver {
       if (kind == 6) f.nlink_extra = 1;
       c.p["kind" + std::to_string(i)] = kind;
       if (kind != 5) c.files.push_back(f);
+      if (kind == 7 && !tostdout) { FileSpec o; o.name = out_name(f.name, dec); o.data = "already there"; o.mode = 0600; c.files.push_back(o); }
       r.argv.push_back(f.name);
     }
     c.p["kinds"] = (int64_t)(kinds & 0x7fffffffffffffffull);
@@ -623,6 +662,14 @@ struct C18 : Driver {
         else if (it != sep.dir.end()) sep.dir.erase(it);
       }
     }
+    // documented status rule, from the operand kinds (not from the separate runs)
+    bool model_warn = false;
+    for (int i = 0; i < nop; i++) {
+      if (fatal_at >= 0 && i >= fatal_at) break;
+      int k = (int)c.p.at("kind" + std::to_string(i));
+      if (k == 5 || (k == 4 && !dec) || (k == 6 && !c.p.at("keep") && !tostdout) || (k == 7 && !tostdout)) model_warn = true;
+    }
+    if (fatal_at < 0 && model_warn != any4) return Verdict::fail("status-rule", std::string("separate invocations returned ") + (any4 ? "4" : "0") + " but the documented rule (4 iff an operand is skipped with a warning) gives " + (model_warn ? "4" : "0") + " (" + c.data_desc + ")");
     int want = fatal_at >= 0 ? 1 : any4 ? 4 : 0;
     if (!(all.kind == sim::X_EXIT && all.code == want))
       return Verdict::fail("status", "combined invocation ended with " + cls_of_exit(all) + ", separate invocations imply " + std::to_string(want) + " (" + c.data_desc + ") stderr: " + all.err.substr(0, 300));
